@@ -243,3 +243,40 @@ Example C05_aggregation_counts_duplicates :
   let x := mkDoc (1000, 0) true 1 in
   search_docs p 0 (prepare p [[x]; [x]]) = Ok (mkQ [(1000, 0)] 1 [(1000, 1)] [(1, 2)] 0).
 Proof. vm_compute. reflexivity. Qed.
+
+(* ------------------------------------------------------------------ generated definitions (Gen.v)
+   Gen.v is regenerated from the Go sources on every run by harness/cmd/go2coq (spec: props/C05/gen.json).
+   The theorems below tie the GENERATED definitions to the hand-written model functions the theorems above
+   are about: a change of one of these Go functions changes Gen.v and the corresponding theorem stops
+   compiling. *)
+From Coq Require Import ZArith.
+From VLib Require GoSem.
+From C05 Require Import Gen ProofsGen.
+
+(* seq.Less as generated = id_ltb, the order every ordering theorem (C05_topk_union, C05_merge_spec, ...) is about *)
+Theorem C05_gen_Less_refines : forall a b : ID, go_seq_Less (zid a) (zid b) = id_ltb a b.
+Proof. exact gen_Less_refines. Qed.
+Print Assumptions C05_gen_Less_refines.
+
+(* Ingestor.paginateIDs as generated = paginate (C05_paginate_spec, C05_paging_tiles are about it), for every
+   tagging of the opaque IDSources; no slice-bounds panic for any non-negative offset and size *)
+Theorem C05_gen_paginateIDs_refines : forall (f : ID -> Z) ids off size,
+  go_search_Ingestor_paginateIDs (map f ids) (Z.of_nat off) (Z.of_nat size)
+  = GoSem.Val (map f (fst (paginate ids off size)), Z.of_nat (snd (paginate ids off size))).
+Proof. exact gen_paginateIDs_refines. Qed.
+Print Assumptions C05_gen_paginateIDs_refines.
+
+(* C05_paginate_spec directly over the GENERATED paginateIDs *)
+Theorem C05_paginate_spec_gen : forall (f : ID -> Z) ids off size,
+  exists out n, go_search_Ingestor_paginateIDs (map f ids) (Z.of_nat off) (Z.of_nat size) = GoSem.Val (out, n)
+    /\ out = map f (firstn size (skipn off ids)) /\ n = GoSem.len out.
+Proof. exact paginate_spec_gen. Qed.
+Print Assumptions C05_paginate_spec_gen.
+
+(* non-vacuity *)
+Example C05_gen_witness :
+  go_search_Ingestor_paginateIDs [10; 11; 12; 13; 14]%Z 1 2 = GoSem.Val ([11; 12]%Z, 2%Z) /\
+  go_search_Ingestor_paginateIDs [10; 11]%Z 5 2 = GoSem.Val ([], 0%Z) /\
+  go_search_Ingestor_paginateIDs [10; 11]%Z (-1) 2 = GoSem.Panic /\
+  go_seq_Less (zid (5, 1)%N) (zid (5, 2)%N) = true.
+Proof. vm_compute. repeat split; reflexivity. Qed.
